@@ -39,6 +39,7 @@ func runAcc(c *chk.Ctx, prop string) {
 	fams := []accParams{
 		{Prop: prop, Family: "special"},
 		{Prop: prop, Family: "slots"},
+		{Prop: prop, Family: "types"},
 		{Prop: prop, Family: "corpus"},
 		{Prop: prop, Family: "models", Budget: chk.Pick(c, 3, 4)},
 		{Prop: prop, Family: "mutants", MutantMax: chk.Pick(c, 1200, 4096)},
@@ -95,6 +96,16 @@ func workAcc(w *run.W) {
 				w.End()
 			}
 		}
+	case "types":
+		var idx int64
+		typeGraphDocs(1, func(name, text string) {
+			idx++
+			if !w.Mine(idx) || !w.Begin(name) {
+				return
+			}
+			judge(name, text, impl.BuildMem("root.jst", text))
+			w.End()
+		})
 	case "slots":
 		// every string slot of a document x every byte value and a few multi-byte sequences written into it
 		var idx int64
